@@ -232,6 +232,18 @@ enum UE32 : int { ue32_a = -5, ue32_b = 0, ue32_c = 123456 };
 enum class SE : short { a = -3, b = 0, c = 300 };
 
 static Der g_ders[4];
+// standard-layout bases at a non-zero offset inside classes that are not standard-layout themselves:
+// the second plain base of a multiple-inheritance class, the plain base of a polymorphic class, a virtual base
+struct P1 { int a; };
+struct P2 { int b; };
+struct PD : P1, P2 { int c; };
+struct NB { int x; };
+struct Poly : NB { int y; virtual ~Poly () { } };
+struct VB { int v; };
+struct VD : virtual VB { int d; };
+static PD   g_pds[4];
+static Poly g_polys[4];
+static VD   g_vds[4];
 static int g_ints[4];
 
 #define PAIR_INT(K, FROM, TO)                                                                 \
@@ -339,6 +351,10 @@ run_all (int only, const std::vector<long long>& extra, const std::vector<double
   if (only < 0 || only == 64) { std::vector<Der *> s; s.push_back (&g_ders[0]); s.push_back (0); s.push_back (&g_ders[2]); run_pair<Der *, B2 *> ("Derived* -> SecondBase*", s, static_cast<B2 *> (&g_ders[1])); }
   if (only < 0 || only == 65) { std::vector<Der *> s; s.push_back (&g_ders[0]); s.push_back (0); s.push_back (&g_ders[2]); run_pair<Der *, const B2 *> ("Derived* -> const SecondBase*", s, static_cast<const B2 *> (&g_ders[1])); }
   if (only < 0 || only == 66) { std::vector<Der *> s; s.push_back (&g_ders[0]); s.push_back (0); run_pair<Der *, void *> ("Derived* -> void*", s, static_cast<void *> (&g_ders[1])); }
+  if (only < 0 || only == 68) { std::vector<PD *> s; s.push_back (&g_pds[0]); s.push_back (0); s.push_back (&g_pds[2]); run_pair<PD *, P2 *> ("Derived* -> plain SecondBase* (standard-layout base, offset 4)", s, static_cast<P2 *> (&g_pds[1])); }
+  if (only < 0 || only == 69) { std::vector<PD *> s; s.push_back (&g_pds[0]); s.push_back (0); s.push_back (&g_pds[2]); run_pair<PD *, const P2 *> ("Derived* -> const plain SecondBase*", s, static_cast<const P2 *> (&g_pds[1])); }
+  if (only < 0 || only == 70) { std::vector<Poly *> s; s.push_back (&g_polys[0]); s.push_back (0); s.push_back (&g_polys[2]); run_pair<Poly *, NB *> ("Polymorphic* -> plain Base* (behind the vptr)", s, static_cast<NB *> (&g_polys[1])); }
+  if (only < 0 || only == 71) { std::vector<VD *> s; s.push_back (&g_vds[0]); s.push_back (0); s.push_back (&g_vds[2]); run_pair<VD *, VB *> ("Derived* -> virtual Base*", s, static_cast<VB *> (&g_vds[1])); }
   if (only < 0 || only == 67) { std::vector<const int *> s; s.push_back (&g_ints[0]); s.push_back (0); run_pair<const int *, const int *> ("const int* -> const int*", s, static_cast<const int *> (&g_ints[1])); }
 #endif
 }
